@@ -24,4 +24,19 @@ def run(path, verbose=True):
             return 1
         print("accepted by %s" % r["monitor"])
         return 0
+    if kind == "c13fn":      # a (table, list) case of the pure override function, judged by TLC (P_C13)
+        import props.c13
+        return props.c13.replay_fn(r, path, wd)
+    if kind in ("c11tables", "c11intercept"):
+        import props.c11
+        return props.c11.replay(r, path, wd)
+    if kind == "parse":      # a text (+ includable files) whose loading crashed / hung / mislocated its diagnostic (C03)
+        import props.c03
+        return props.c03.replay(r, path, wd)
+    if kind == "cfgpair":    # C16: (original, rewritten) configuration pair, both sides through the real parser again
+        import props.c16
+        return props.c16.replay_pair(r, wd)
+    if kind == "switch-tv":  # C10: a switch condition / case list + environments, through the real parser and Switch::actions
+        import props.c10
+        return props.c10.replay(r, path, wd)
     raise ToolError("unknown replay kind %r" % kind)
